@@ -525,6 +525,37 @@ pub fn main_pairs(a: Args, which: &str) -> i32 {
             }
         }
     }
+    // ---- sources of several MiB (oracle-only: no model line): a 7-byte insertion into 3 MiB of unique blocks - a copy
+    // that runs for megabytes, re-synchronisation far from the start, a source above any size threshold of the scan -
+    // and 3 MiB of new data against an empty basis - one literal run of megabytes; library engines, the property
+    // oracles (round trip, literal bytes <= textbook greedy), and for C01 the file chain through the real CLI
+    if a.replay.is_none() {
+        let mut r = Rng::new(a.seed ^ 0xB16);
+        let big: Vec<u8> = (0..3 * 1024 * 1024).map(|_| r.byte()).collect();
+        let mut edited = big.clone();
+        for (k, b) in b"INSERT!".iter().enumerate() { edited.insert(3000 + k, *b); }
+        let cases = [(2048usize, big.clone(), edited, "big:insert7"), (2048usize, vec![], big.clone(), "big:all-new")];
+        for (k, (bs, basis, src, class)) in cases.into_iter().enumerate() {
+            let p = Pair { id: 900_000 + k, bs, basis, src, class: class.to_string() };
+            let e = run_pair(&p, a.seed);
+            out.count("pairs_big_oracle_only");
+            out.line("cases-oracle.txt", &format!("{} {} (basis {} bytes, source {} bytes, block size {}; generated from seed ^ 0xB16)", p.id, class, p.basis.len(), p.src.len(), bs));
+            let mut fails = e.fails.clone();
+            if which == "c01" {
+                if let Some(c) = &copia {
+                    out.count("cli_chains");
+                    fails.extend(run_cli_pair(&p, c, &a.out, &e));
+                }
+            }
+            for f in fails {
+                let relevant = if which == "c16" { f.contains(" C16 ") || f.contains("panic") } else { !f.contains(" C16 ") };
+                if relevant {
+                    nfail += 1;
+                    out.line("specfail.txt", &f);
+                }
+            }
+        }
+    }
     out.add("distinct_nontrivial", distinct.len() as u64);
     out.add("spec_failures", nfail);
     out.finish();
